@@ -94,7 +94,8 @@ impl ConnBuffer {
         loop {
             let nread = reader.read_line(&mut self.line)?;
             if nread == 0 {
-                todo!()
+                // no header line at all
+                return num_error("left", 0);
             }
             self.ctx.add_line(1);
             if !EMPTY_LINE.is_match(&self.line) {
